@@ -1,7 +1,10 @@
 (* C01 correspondence run.
    case  L [I 0; state; genby; date] -> L [written file; table loaded from the sample copy;
                                             table loaded from the observation copy;
-                                            does the case satisfy the hypotheses of hdf5_roundtrip]
+                                            does the case satisfy the hypotheses of hdf5_roundtrip;
+                                            for every later generation (the state of the table that was
+                                            loaded and is written again, given as 5th element):
+                                            L [written file; table loaded from it; hypotheses]]
    case  L [I 1; bytes]              -> the strict UTF-8 decoder on arbitrary bytes
    case  L [I 2; text]               -> escape / unescape of a category name *)
 From Coq Require Import List Bool ZArith.
@@ -12,11 +15,15 @@ Definition run (t : Tree) : Tree :=
   match tZ (tnth t 0) with
   | 0%Z =>
     let st := tState (tnth t 1) in
-    let w := to_hdf5 st (tLZ (tnth t 2)) (tLZ (tnth t 3)) in
+    let w := write_state (tnth t 1) (tLZ (tnth t 2)) (tLZ (tnth t 3)) in
     L [eResult eH5 w;
        eResult eLoaded (bind w (fun f => from_hdf5 f Samp));
        eResult eLoaded (bind w (fun f => from_hdf5 f Obs));
-       eB (in_domainb st (tLZ (tnth t 2)) (tLZ (tnth t 3)))]
+       eB (in_domainb st (tLZ (tnth t 2)) (tLZ (tnth t 3)));
+       L (map (fun t2 => let w2 := write_state t2 (tLZ (tnth t 2)) (tLZ (tnth t 3)) in
+                         L [eResult eH5 w2; eResult eLoaded (bind w2 (fun f => from_hdf5 f Samp));
+                            eB (in_domainb (tState t2) (tLZ (tnth t 2)) (tLZ (tnth t 3)))])
+               (tL (tnth t 4)))]
   | 1%Z => eOpt eLZ (utf8_decode (tLZ (tnth t 1)))
   | _ => L [eLZ (utf8_encode (sanitize (tLZ (tnth t 1)))); eLZ (unsanitize (sanitize (tLZ (tnth t 1))))]
   end.
